@@ -186,8 +186,12 @@ shape("FlowProposalDens", {
         "<abstract>", "FlowProposal.rescale",
         params={"x": PT, "compute_radius": "Bool"}, trusted=True,
         trusted_reason="the configured reparameterisation as an abstract "
-        "map Rf with log-Jacobian RJ (elementary maps: C07; combination and "
-        "structured-array plumbing not verified)",
+        "map Rf with log-Jacobian RJ (elementary maps and RescaleToBounds: "
+        "C07; the real body of rescale / inverse_rescale -- allocation, "
+        "zero initial log-Jacobian, non-sampling fields carried over, input "
+        "untouched -- is proved against an abstract reparameterisation "
+        "object on two-coordinate rows: FlowProposal.rescale#real; the "
+        "combination of several reparameterisations is not verified)",
         returns=f"Tuple({XT},Seq(Real))",
         ensures=["len(result[0]) == len(x) and len(result[1]) == len(x)",
                  "forall(i, 0, len(x), result[0][i] == Rf(x[i]) and "
@@ -279,3 +283,94 @@ for _c in _ALL.values():
     if "C08" in _c.props and _c.verify and _c.replay is None and \
             _c.file in (FB, FM, PF):
         _c.replay = {"module": "replay.c08_flow", "func": "flow_replay"}
+
+# ---- the real FlowProposal.rescale / inverse_rescale: the glue between the
+# ---- proposal and its (combined) reparameterisation.  The reparameterisation
+# ---- object is abstract here -- per row, the primed coordinates are
+# ---- functions (GA, GB) of the row's coordinates with a log-Jacobian GJ
+# ---- added to what it is handed (HA, HB, HJ for the inverse); the classes
+# ---- that implement it are C07's.  What is proved: the arrays are allocated
+# ---- with the right length, the log-Jacobian starts from zero, the
+# ---- non-sampling fields are carried over, the input array is not written.
+from pyvc.contracts import shape as _shape   # noqa: E402
+XAB = "Struct(a:Real,b:Real,logP:Real,logL:Real,it:Int)"
+XABP = "Struct(a_prime:Real,b_prime:Real,logP:Real,logL:Real,it:Int)"
+_shape("ReparamAbs", {}, methods={
+    "reparameterise": Contract(
+        "<abstract>", "ReparamAbs.reparameterise",
+        params={"x": XAB, "x_prime": XABP, "log_j": "Seq(Real)",
+                "compute_radius": "Bool", "**kwargs": {}},
+        trusted=True, trusted_reason="the combined reparameterisation as "
+        "abstract per-row maps (C07 proves the built-in ones)",
+        requires=["len(x) == len(x_prime) and len(log_j) == len(x)"],
+        modifies=["x_prime", "log_j"], returns="ParamTuple(x,x_prime,log_j)",
+        ensures=["len(x_prime) == old(len(x_prime)) and "
+                 "len(log_j) == old(len(log_j))",
+                 "forall(i, 0, len(x), x_prime['a_prime'][i] == "
+                 "GA(x['a'][i], x['b'][i]) and x_prime['b_prime'][i] == "
+                 "GB(x['a'][i], x['b'][i]) and log_j[i] == old(log_j)[i] + "
+                 "GJ(x['a'][i], x['b'][i]))"]),
+    "inverse_reparameterise": Contract(
+        "<abstract>", "ReparamAbs.inverse_reparameterise",
+        params={"x": XAB, "x_prime": XABP, "log_j": "Seq(Real)",
+                "**kwargs": {}},
+        trusted=True, trusted_reason="see reparameterise",
+        requires=["len(x) == len(x_prime) and len(log_j) == len(x)"],
+        modifies=["x", "log_j"], returns="ParamTuple(x,x_prime,log_j)",
+        ensures=["len(x) == old(len(x)) and len(log_j) == old(len(log_j))",
+                 "forall(i, 0, len(x), x['a'][i] == "
+                 "HA(x_prime['a_prime'][i], x_prime['b_prime'][i]) and "
+                 "x['b'][i] == HB(x_prime['a_prime'][i], "
+                 "x_prime['b_prime'][i]) and log_j[i] == old(log_j)[i] + "
+                 "HJ(x_prime['a_prime'][i], x_prime['b_prime'][i]))"]),
+})
+_shape("FlowRescale", {
+    "_reparameterisation": "Obj(ReparamAbs)",
+    "x_dtype": "DType(a:Real,b:Real,logP:Real,logL:Real,it:Int)",
+    "x_prime_dtype": "DType(a_prime:Real,b_prime:Real,logP:Real,logL:Real,"
+                     "it:Int)",
+}, cls="FlowProposal")
+contract(
+    PF, "FlowProposal.rescale", variant_name="real", props=["C08", "C07"],
+    self_shape="FlowRescale",
+    params={"x": XAB, "compute_radius": "Bool", "**kwargs": {}},
+    ident_name="FlowProposal.rescale#real",
+    requires=["len(x) != 1"],      # (the single-record re-wrapping branch)
+    returns=f"Tuple({XABP},Seq(Real))",
+    ensures=["len(result[0]) == len(x) and len(result[1]) == len(x)",
+             f"forall(i, 0, len(x), result[0]['a_prime'][i] == "
+             f"GA(x['a'][i], x['b'][i]) and result[0]['b_prime'][i] == "
+             f"GB(x['a'][i], x['b'][i]))",
+             # the log-Jacobian is the reparameterisation's alone
+             f"forall(i, 0, len(x), result[1][i] == "
+             f"GJ(x['a'][i], x['b'][i]))",
+             # non-sampling fields are carried over
+             "forall(i, 0, len(x), result[0]['logP'][i] == x['logP'][i] and "
+             "result[0]['logL'][i] == x['logL'][i] and "
+             "result[0]['it'][i] == x['it'][i])"],
+)
+contract(
+    PF, "FlowProposal.inverse_rescale", variant_name="real",
+    props=["C08", "C07"], self_shape="FlowRescale",
+    params={"x_prime": XABP, "**kwargs": {}},
+    ident_name="FlowProposal.inverse_rescale#real",
+    returns=f"Tuple({XAB},Seq(Real))",
+    ensures=["len(result[0]) == len(x_prime) and "
+             "len(result[1]) == len(x_prime)",
+             f"forall(i, 0, len(x_prime), result[0]['a'][i] == "
+             f"HA(x_prime['a_prime'][i], x_prime['b_prime'][i]) and "
+             f"result[0]['b'][i] == "
+             f"HB(x_prime['a_prime'][i], x_prime['b_prime'][i]))",
+             f"forall(i, 0, len(x_prime), result[1][i] == "
+             f"HJ(x_prime['a_prime'][i], x_prime['b_prime'][i]))",
+             "forall(i, 0, len(x_prime), result[0]['logP'][i] == "
+             "x_prime['logP'][i] and result[0]['logL'][i] == "
+             "x_prime['logL'][i] and result[0]['it'][i] == "
+             "x_prime['it'][i])"],
+)
+contract(LPF, "empty_structured_array", variant_name="real",
+         props=["C08", "C07"], trusted=True, verify=False,
+         trusted_reason="allocation of n rows of the given structured dtype "
+         "(field defaults: C18's concern)",
+         params={"n": "Int", "dtype": "Any"}, requires=["n >= 0"],
+         returns="StructOf(dtype)", ensures=["len(result) == n"])
